@@ -25,7 +25,8 @@ LEVEL_TEXT = ('For partially_occluded and raytracing: every world cell reported 
               'visible opaque cell by floor never hides a visible cell. All 2^(n-1) opacity patterns of the 3x3 and 4x3 views '
               '(quick; 3x5 too in thorough) with all single-cell flips are enumerated. The stochastic view must show only '
               'cells the deterministic ray-traced view shows, and always the cells every ray reaches lit (lit counts '
-              'recomputed by the harness over the repository\'s ray fan).')
+              'recomputed by the harness over the repository\'s ray fan).'
+              ' Also: door-status pairs observed consecutively, wall fields of density 0.3-0.5 under 7x7 / 5x9 views with every hidden cell replaced, the stochastic view under generators returning the largest / smallest positive uniform draw.')
 LEVEL_NOTE = ('Trusted: refmodel.view_to_world (decided by C05) to relate world and view cells; the ray fan itself is the '
               'subject of C19. Only the built-in raytracing threshold (1, absolute counts) is claimed. rng.random()==0.0 ignored.')
 SHARDS = {'quick': 4, 'thorough': 16}
